@@ -179,6 +179,12 @@ def run(tier, seed):
     v.cov["traces_validated_against_impl"] = len(results)
     v.assumptions += ["a crash point is 'between two file-system calls of the process' (a snapshot taken at a hook point); a single write(2) torn by the kernel or power loss is not modelled",
                       "buffered bytes are not on disk: the snapshot is a copy of the files at the hook point"]
+    # ---- 3. acknowledged means on disk, for every writer family: generated histories (provider runs with text
+    # deltas, tool and checkpoint commands, tasks, continuity operations) through the real router; at every
+    # log.flushed point - the writer mutex is still held, the append is about to return Ok - the last line of
+    # events.jsonl must be the frame just appended (StoreSeq: `acked` is a subset of the frames on disk).  A process
+    # killed right after that point loses nothing it acknowledged.
+    ack_family(v, wd, 100 if thorough else 14, seed)
     # the repository's own tests as drivers: every recorded execution against the monitor half of System.tla
     from .. import suite
     suite.check(v, wd)
@@ -186,6 +192,34 @@ def run(tier, seed):
         rule="cases = (operation, k-th file-system hook point during it) pairs, each reopened by a fresh engine and followed by appends + queries; "
              "non-trivial = the crash falls inside the append path (class pre / flushed / cached); distinct by (operation id, k, point name)",
         exhaustive=False)
+
+
+def ack_family(v, wd, n, seed, replay_case=None):
+    from . import c03
+    sc = [replay_case] if replay_case else c03.generated_scenarios(n, seed + 500)
+    for c in sc:
+        c["id"] = c["id"].replace("gen-", "ack-")
+    results = run_harness("fidelity", [{k: x for k, x in c.items() if not k.startswith("_")} for c in sc], wd, "ack", shards=min(len(sc), 14), timeout=1800)
+    by_id = {c["id"]: c for c in sc}
+    checked = 0
+    kinds = set()
+    for res in results:
+        checked += res.get("ack_checked", 0)
+        for o in res.get("order", []):
+            kinds.add(o["type"])
+        v.add_eval({"ack_history": res["id"]}, res.get("ack_checked", 0) > 0)
+        miss = res.get("ack_not_on_disk") or []
+        if miss:
+            c = by_id[res["id"]]
+            m = miss[0]
+            v.violation(f"history {res['id']} (steps {c.get('_names')}): the append of {m.get('kind')} seq {m.get('seq')} of {m.get('sk')} stream was about to be acknowledged "
+                        f"(log.flushed) but its line is not the last line of events.jsonl (file length {m.get('file_len')}, line {m.get('bytes')} bytes); "
+                        f"{len(miss)} such appends in this history - a crash here loses an acknowledged frame",
+                        {"engine": "ack", "case": {k: x for k, x in c.items() if not k.startswith("_")}})
+    v.cov["ack_on_disk"] = {"histories": len(results), "appends_checked": checked, "frame_types": len(kinds)}
+    if not replay_case and checked < 100:
+        die_tool(f"ack family: only {checked} appends observed")
+    return results
 
 
 def replay(path, seed):
@@ -196,6 +230,14 @@ def replay(path, seed):
         from .. import suite
         return suite.replay(PROP, path, case)
     wd = workdir(PROP + "-replay")
+    if case.get("engine") == "ack":
+        v = Verdict(PROP, "replay", seed)
+        ack_family(v, wd, 1, seed, replay_case=dict(case["case"]))
+        if v.violations:
+            print(v.violations[0][0][:600])
+            print(f"VIOLATION property={PROP} replay={path}")
+            return 1
+        return 0
     res = run_harness("crash", [case["case"]], wd, "replay")[0]
     k = case["crash_point"]["k"]
     pt = [p for p in res["points"] if p["k"] == k]
